@@ -345,6 +345,10 @@ func (c *Client) folderUpload(w *World, folder string, nodes []treeNode, cut boo
 				w.Violate("c10-upload-no-next", "after resumed file %q: %v %v", nd.Rel, a, err)
 				return false
 			}
+			if got, err := os.ReadFile(full); err != nil || !bytes.Equal(got, nd.Data) {
+				w.Violate("c10-acknowledged-item-not-published", "the server asked for the next item after %q, but the final name holds %d bytes (err %v), the file has %d", nd.Rel, len(got), err, len(nd.Data))
+				return false
+			}
 		case 1:
 			if errFull == nil {
 				w.Violate("c10-upload-overwrites", "server asks to send %q although it has the complete file", nd.Rel)
@@ -357,6 +361,10 @@ func (c *Client) folderUpload(w *World, folder string, nodes []treeNode, cut boo
 			_, _ = x.Write(append(sz, ffo...))
 			if a, err := readN(x, 2); err != nil || a[1] != 3 {
 				w.Violate("c10-upload-no-next", "after file %q: %v %v", nd.Rel, a, err)
+				return false
+			}
+			if got, err := os.ReadFile(full); err != nil || !bytes.Equal(got, nd.Data) {
+				w.Violate("c10-acknowledged-item-not-published", "the server asked for the next item after %q, but the final name holds %d bytes (err %v), the file has %d", nd.Rel, len(got), err, len(nd.Data))
 				return false
 			}
 		default:
